@@ -628,3 +628,30 @@ def unread_helper(*values):
             if name + "(" in t:
                 return name
     return None
+
+
+def affine_positions(ev, fi, loop, benv, carried, env, idx: Rat, first: Rat) -> dict:
+    """Loop-carried *position* variables: a name that starts at a constant and is set, on every path of an iteration, to the
+    position of the next iteration plus the same offset (`prev = i` at the end of each round) *is* idx + c at the head of
+    every iteration - an inductive invariant (base: its initial value at the first position `first`; step: checked on the
+    body's transfer function under the hypothesis).  Returns {name: idx + c} for the names where the induction goes through."""
+    from ..gvn import cases_of, Unsupported
+    cand = {n: idx + (env[n] - first) for n in carried if isinstance(env.get(n), Rat) and env[n].is_const() is not None}
+    while cand:
+        trial = dict(benv)
+        trial.update(cand)
+        try:
+            out = ev.eval_loop_body(fi, loop, trial)
+        except Unsupported:
+            return {}
+        bad = []
+        for n, hyp in cand.items():
+            new = out.env.get(n)
+            live = [(g, v) for g, v in cases_of(new) if g_sat(g)]
+            if not live or not all(isinstance(v, Rat) and v.equals(hyp + Rat.const(1)) for _g, v in live):
+                bad.append(n)
+        if not bad:
+            return cand
+        for n in bad:
+            del cand[n]
+    return {}
